@@ -20,6 +20,7 @@ mod execchecks;
 mod values;
 mod w2;
 mod frontend;
+mod hintfault;
 mod report;
 mod rng;
 mod serde_checks;
